@@ -97,16 +97,22 @@ CLAIMS = {
              'erase-all / unset) are regenerated from src/document.cpp and checked complete and typed.',
         design='8 C04'),
     'C05': dict(
-        technique='Rocq proof of the ID assigner\'s algorithmic core (nextCounter least-free, fresh assigned IDs, lookup, '
-                  'set(Id) in use) - uniqueness as an invariant of histories only explored (partial) + differential run with '
-                  'uniqueness and lookup oracles',
-        text='Partial. Proved (Props/Properties_C05.v, Heap/Ids.v) for all inputs: nextCounter returns the least value at or '
-             'above the preferred one that is not in use (given distinct values above it) and keeps a free preferred value; '
-             'the ID computed for a joining element is carried by no member of its kind; a free pre-set value is kept; '
-             'Document::add changes no element that already belongs to a document; lookup returns None exactly when no '
-             'listed element carries the ID; set(Id) of an ID in use throws and changes nothing. Not proved: that '
-             'uniqueness holds in every reachable state (hypothesis distinct_above); explored on libadm after every call of '
-             'generated histories (uniqueness, lookup and ID-stability oracles).',
+        technique='Rocq proof: ID uniqueness as an invariant of every history of the modelled calls (Heap/Uniq.v, no '
+                  'distinctness hypothesis), lookup returns the carrier, nextCounter least-free, fresh assigned IDs, set(Id) '
+                  'in use throws + differential run with uniqueness, lookup and ID-stability oracles; the extracted model '
+                  'evaluates the theorem\'s guard and the invariant on every generated history',
+        text='Proved (Props/Properties_C05.v; Heap/Uniq.v, Heap/Ids.v) for every history of new document/new element/add/'
+             'remove/the reference calls/set(Id)/getSilent/lookup from the empty state: two different members of one '
+             'membership list carry different IDs unless the ID is reserved, undefined, a silent track UID or a track-UID '
+             'value that does not fit the 32-bit field; lookup(id) of a non-exempt ID returns exactly the member carrying '
+             'it; the distinctness nextCounter relies on is derived from the invariant, not assumed. The only guard on a '
+             'history (run_ok, decidable, evaluated by the extracted model on every generated history and reported in the '
+             'evidence): an ID passed to set(Id) has the shape of its C++ type and value 0 of a pack/channel/stream-format '
+             'ID belongs to the all-zero ID. Also for all inputs: nextCounter returns the least free value at or above the '
+             'preferred one and keeps a free one; Document::add changes no element already in a document; set(Id) of an ID '
+             'in use throws and changes nothing. Partial in these respects: the model\'s ID fields are unbounded (wrap-around '
+             'at the top of the 16/32-bit fields is outside the model, as the property\'s quantifier allows); documents '
+             'produced by deepCopy/parse are covered by C09/C13 and the oracles, not by this invariant.',
         design='8 C05'),
     'C01': dict(
         technique='Rocq proof over writer/parser tables regenerated from the XML code (name-level agreement, literal values, '
